@@ -192,6 +192,48 @@ func BuildLexFacts(w *World) (*LexFacts, error) {
 			}
 		}
 	}
+	// regexes compiled once into package-level (or local) variables: var re = regexp.MustCompile(`…`)
+	compiled := map[types.Object]string{}
+	for _, f := range pkg.Syntax {
+		ast.Inspect(f, func(n ast.Node) bool {
+			var names []*ast.Ident
+			var values []ast.Expr
+			switch x := n.(type) {
+			case *ast.ValueSpec:
+				names, values = x.Names, x.Values
+			case *ast.AssignStmt:
+				if x.Tok == token.DEFINE && len(x.Lhs) == len(x.Rhs) {
+					for _, l := range x.Lhs {
+						if id, ok := l.(*ast.Ident); ok {
+							names = append(names, id)
+						} else {
+							names = append(names, nil)
+						}
+					}
+					values = x.Rhs
+				}
+			}
+			for i, nm := range names {
+				if nm == nil || i >= len(values) {
+					continue
+				}
+				call, ok := values[i].(*ast.CallExpr)
+				if !ok || len(call.Args) != 1 {
+					continue
+				}
+				o := calleeObj(info, call)
+				if o == nil || o.Pkg() == nil || o.Pkg().Path() != "regexp" || (o.Name() != "MustCompile" && o.Name() != "Compile") {
+					continue
+				}
+				if pat, ok := constString(info, call.Args[0]); ok {
+					if obj := info.Defs[nm]; obj != nil {
+						compiled[obj] = pat
+					}
+				}
+			}
+			return true
+		})
+	}
 	// regexes compiled from constants anywhere in the package
 	idx := 0
 	for _, f := range pkg.Syntax {
@@ -203,6 +245,25 @@ func BuildLexFacts(w *World) (*LexFacts, error) {
 			}
 			sel, ok := call.Fun.(*ast.SelectorExpr)
 			if !ok {
+				return true
+			}
+			if id, ok := sel.X.(*ast.Ident); ok {
+				// method call on a regex variable
+				if pat, ok := compiled[info.Uses[id]]; ok {
+					tree, err := syntax.Parse(pat, syntax.Perl)
+					if err != nil {
+						tree = nil
+					}
+					lr := &LexRegex{Pattern: pat, Pos: call.Pos(), Tree: tree, Method: sel.Sel.Name, Call: call, Index: idx}
+					idx++
+					if len(call.Args) > 0 {
+						lr.Arg = call.Args[0]
+						if _, ok := call.Args[0].(*ast.SliceExpr); ok {
+							lr.OnRest = true
+						}
+					}
+					lf.Regexes = append(lf.Regexes, lr)
+				}
 				return true
 			}
 			inner, ok := sel.X.(*ast.CallExpr)
